@@ -476,18 +476,10 @@ Proof.
     pose proof (try_remove_em_zero _ _ _ _ _ Z4 TR) as Z4'. inversion H; subst.
     unfold ZeroConf; sproj. split; [assumption|]. split; [|split; assumption].
     apply (clients_cf0_set st); [assumption|sproj; reflexivity|cbn; reflexivity].
-  - destruct (s_closed st); [inversion H; subst; assumption|]. sproj.
-    destruct (buf_send _ _ _) as [st2|] eqn:E.
-    + inversion H; subst. apply buf_send_frame in E. sproj.
-      destruct E as (_ & Est & Eb & Ep & _ & Ec & _).
-      unfold ZeroConf; sproj. rewrite Eb, Ep, Est. sproj.
-      split; [apply Forall_app; split; [assumption|constructor; [exact I|constructor]]|].
-      split; [|split; assumption].
-      apply (clients_cf0_set st); [assumption|sproj; assumption|exact I].
-    + inversion H; subst. apply (zc_frame st); sproj; auto.
-  - destruct (s_closed st); [inversion H; subst; assumption|].
-    destruct (s_pc st) eqn:PC; inversion H; subst; try assumption;
-      (apply (zc_client st); [assumption|sproj; try rewrite PC; reflexivity..|exact I]).
+  - destruct (s_closed st); inversion H; subst; [assumption|].
+    apply (zc_client st); [assumption|sproj; reflexivity..|exact I].
+  - destruct (s_closed st); inversion H; subst; [assumption|].
+    apply (zc_client st); [assumption|sproj; reflexivity..|exact I].
   - destruct (s_closed st); inversion H; subst; [assumption|].
     unfold ZeroConf; sproj. split; [assumption|]. split; [|split; assumption].
     apply (clients_cf0_set st); [assumption|sproj; reflexivity|exact I].
@@ -526,6 +518,16 @@ Proof.
       split; [apply Forall_app; split; [assumption|constructor; [exact Za|constructor]]|].
       split; [|split; assumption]. apply (clients_cf0_set st); [assumption|assumption|exact I].
     + destruct (s_pc st) eqn:PC; try discriminate; inversion H; subst; zc_cl ZC st.
+  - sproj. destruct (buf_send _ _ _) as [st2|] eqn:E.
+    + inversion H; subst. apply buf_send_frame in E. sproj.
+      destruct E as (_ & Est & Eb & Ep & _ & Ec & _).
+      unfold ZeroConf; sproj. rewrite Eb, Ep, Est. sproj.
+      split; [apply Forall_app; split; [assumption|constructor; [exact I|constructor]]|].
+      split; [|split; assumption].
+      apply (clients_cf0_set st); [assumption|sproj; assumption|exact I].
+    + inversion H; subst. apply (zc_client st); [assumption|sproj; reflexivity..|exact I].
+  - destruct (s_pc st) eqn:PC; inversion H; subst;
+      (apply (zc_client st); [assumption|sproj; try rewrite PC; reflexivity..|exact I]).
   - destruct (s_closed st); inversion H; subst; zc_cl ZC st.
   - destruct (mem_N id (s_done st)); [|discriminate]. inversion H; subst. zc_cl ZC st.
   - destruct (mem_N id (s_done st)); [|discriminate]. destruct closing; inversion H; subst; zc_cl ZC st.
@@ -768,18 +770,10 @@ Proof.
       * destruct P as (P1 & P2). split; [|exact P2]. intros X. destruct (P1 X) as (Q1 & Q2). split; [exact Q1|].
         rewrite HS. rewrite Q2. apply andb_false_r.
       * destruct P as (P1 & P2). split; [assumption|]. intros x. rewrite HS. rewrite (P2 x). apply andb_false_r.
-  - destruct (s_closed st); [inversion H; subst; assumption|]. sproj.
-    destruct (buf_send _ _ _) as [st2|] eqn:E.
-    + inversion H; subst. apply buf_send_frame in E. sproj.
-      destruct E as (Es & Est & Eb & Ep & _ & Ec & _).
-      apply (Agree_client_only st); sproj; auto.
-      * intros kk cf Hi. rewrite Eb. apply in_or_app. auto.
-      * intros kk cf X. rewrite K in X. discriminate.
-    + inversion H; subst. apply (Agree_transfer st); sproj; auto.
-      intros kk b cf X. left. eauto.
-  - destruct (s_closed st); [inversion H; subst; assumption|].
-    destruct (s_pc st) eqn:PC; inversion H; subst; try assumption;
-      (apply (Agree_client_only st); sproj; rewrite ?PC; auto).
+  - destruct (s_closed st); inversion H; subst; [assumption|].
+    apply (Agree_client_only st); sproj; auto.
+  - destruct (s_closed st); inversion H; subst; [assumption|].
+    apply (Agree_client_only st); sproj; auto.
   - destruct (s_closed st); inversion H; subst; [assumption|].
     apply (Agree_client_only st); sproj; auto.
   - inversion H; subst. assumption.
@@ -826,6 +820,15 @@ Proof.
       * intros kk cf X. rewrite K in X. inversion X; subst. left. exists cf. rewrite Eb. apply in_or_app. right. left. reflexivity.
     + destruct (s_pc st) eqn:NL; try discriminate. inversion H; subst;
         (apply (Agree_client_only st); sproj; auto; intros kk cf X; right; assumption).
+  - sproj. destruct (buf_send _ _ _) as [st2|] eqn:E.
+    + inversion H; subst. apply buf_send_frame in E. sproj.
+      destruct E as (Es & Est & Eb & Ep & _ & Ec & _).
+      apply (Agree_client_only st); sproj; auto.
+      * intros kk cf Hi. rewrite Eb. apply in_or_app. auto.
+      * intros kk cf X. rewrite K in X. discriminate.
+    + inversion H; subst. apply (Agree_client_only st); sproj; auto. intros kk cf X; rewrite K in X; discriminate X.
+  - destruct (s_pc st) eqn:PC; inversion H; subst;
+      (apply (Agree_client_only st); sproj; rewrite ?PC; auto; intros kk cf X; rewrite K in X; discriminate X).
   - destruct (s_closed st); inversion H; subst; ag_cl AG st K.
   - destruct (mem_N id (s_done st)); [|discriminate]. inversion H; subst. ag_cl AG st K.
   - destruct (mem_N id (s_done st)); [|discriminate]. destruct closing; inversion H; subst; ag_cl AG st K.
@@ -1255,10 +1258,8 @@ Proof.
     + destruct (st_get _ _ _ _); [destruct (st_expiration _ _); [destruct (t_get_ttl _ _)|]|]; inversion H; subst; assumption.
     + destruct (s_closed st); [inversion H; subst; assumption|].
       destruct (st_try_remove _ _ _) as [sto prev] eqn:TR. pose proof (nd_try_remove _ _ _ _ _ ND TR). inversion H; subst; sproj; assumption.
-    + destruct (s_closed st); [inversion H; subst; assumption|]. sproj.
-      destruct (buf_send _ _ _) as [st2|] eqn:E; inversion H; subst; sproj; [|assumption].
-      apply buf_send_frame in E. sproj. destruct E as (_ & Est & _). rewrite Est. assumption.
-    + destruct (s_closed st); [inversion H; subst; assumption|]. destruct (s_pc st); inversion H; subst; sproj; assumption.
+    + destruct (s_closed st); inversion H; subst; sproj; assumption.
+    + destruct (s_closed st); inversion H; subst; sproj; assumption.
     + destruct (s_closed st); inversion H; subst; sproj; assumption.
     + inversion H; subst; assumption.
     + inversion H; subst; sproj; assumption.
@@ -1274,6 +1275,9 @@ Proof.
     + destruct (buf_send c st (IDelete k c0)) as [st1|] eqn:E.
       * inversion H; subst; sproj. apply buf_send_frame in E. destruct E as (_ & Est & _). rewrite Est. assumption.
       * destruct (s_pc st); try discriminate; inversion H; subst; sproj; assumption.
+    + sproj. destruct (buf_send _ _ _) as [st2|] eqn:E; inversion H; subst; sproj; [|assumption].
+      apply buf_send_frame in E. sproj. destruct E as (_ & Est & _). rewrite Est. assumption.
+    + destruct (s_pc st); inversion H; subst; sproj; assumption.
     + destruct (s_closed st); inversion H; subst; sproj; assumption.
     + destruct (mem_N id (s_done st)); [|discriminate]. inversion H; subst; sproj; assumption.
     + destruct (mem_N id (s_done st)); [|discriminate]. destruct closing; inversion H; subst; sproj; assumption.
